@@ -21,6 +21,7 @@ theorem C09_cx_in_range_act (op : Opts) (s : TS) (a : Action) (h : CxOk s) : CxO
     | (rw [(selectItem_fields op s _).1, (selectItem_fields op s _).2.1]; exact h)
     | (rw [(toggleCurrent_fields op s).1, (toggleCurrent_fields op s).2.1]; exact h)
     | (rw [(selectMany_fields op _ _ _).1, (selectMany_fields op _ _ _).2.1]; exact h)
+    | (rw [(constrain_fields op _).1, (constrain_fields op _).2.1]; simp only [vset]; exact h)
     | (simp only [deselectItem]; exact h)
 
 end Fzf.Props.C09
@@ -41,6 +42,7 @@ theorem C09_sel_limit_act (op : Opts) (s : TS) (a : Action) (h : SelOk op s) : S
     | exact selectMany_selOk op _ _ _ h
     | (apply selectMany_selOk; unfold SelOk at *; exact Nat.le_trans (List.length_filter_le _ _) h)
     | (unfold SelOk at *; exact Nat.le_trans (List.length_filter_le _ _) h)
+    | (unfold SelOk at *; rw [(constrain_fields op _).2.2.1]; simp only [vset]; exact h)
     | (unfold SelOk; simp)
 
 theorem toggleMove_cx (op : Opts) (s : TS) (d : Int) (h : CxOk s) : CxOk (toggleMove op s d) := by
